@@ -289,14 +289,13 @@ func cmdCheck(args []string) int {
 		}
 		return false
 	}
-	silentMin := map[*FuncResult]int{}
+	// verdicts of the silently decided clauses (not reported; their facts are dropped when they fail)
+	silentV := map[*Obligation]string{}
 	if os.Getenv("GVC_NO_SILENT") == "" {
 		var sub []*FuncResult
-		var owner []*FuncResult
 		for _, r := range results {
 			if len(silent[r]) > 0 && r.Err == nil {
 				sub = append(sub, &FuncResult{Fn: r.Fn, Query: r.Query, Obls: silent[r]})
-				owner = append(owner, r)
 			}
 		}
 		if len(sub) > 0 {
@@ -304,40 +303,23 @@ func cmdCheck(args []string) int {
 				fmt.Fprintln(os.Stderr, "gvc:", err)
 				return 2
 			}
-			for k, sr := range sub {
-				r := owner[k]
+			for _, sr := range sub {
 				for j, o := range sr.Obls {
-					if sr.Verdicts[j].Answer == "unsat" || knownWhole(r.Fn, o.Name) {
-						continue
-					}
-					if r.Query.skip == nil {
-						r.Query.skip = map[int]bool{}
-					}
-					r.Query.skip[o.assumeIdx] = true
-					if m, ok := silentMin[r]; !ok || o.assumeIdx < m {
-						silentMin[r] = o.assumeIdx
-					}
-					unclaimedFailed = append(unclaimedFailed, shortCallee(r.Fn)+" :: "+o.Name)
+					silentV[o] = sr.Verdicts[j].Answer
 				}
 			}
 		}
 	}
-	for round := 0; round < 4; round++ {
+	noted := map[string]bool{}
+	for round := 0; round < 6; round++ {
 		var sub []*FuncResult
-		var back [][]int
+		var back [][]int // index into r.Obls, or -1-k for silent[r][k]
 		for _, r := range results {
 			if r.Err != nil || r.Query == nil {
 				continue
 			}
 			minIdx := -1
-			if m, ok := silentMin[r]; ok && round == 0 {
-				minIdx = m
-			}
-			for i, o := range r.Obls {
-				v := r.Verdicts[i]
-				if o.Cover || o.Known || v.Answer == "unsat" || o.assumeIdx < 0 || knownWhole(r.Fn, o.Name) {
-					continue
-				}
+			drop := func(o *Obligation) {
 				if r.Query.skip == nil {
 					r.Query.skip = map[int]bool{}
 				}
@@ -346,6 +328,23 @@ func cmdCheck(args []string) int {
 					if minIdx < 0 || o.assumeIdx < minIdx {
 						minIdx = o.assumeIdx
 					}
+				}
+			}
+			for i, o := range r.Obls {
+				v := r.Verdicts[i]
+				if o.Cover || o.Known || v.Answer == "unsat" || o.assumeIdx < 0 || knownWhole(r.Fn, o.Name) {
+					continue
+				}
+				drop(o)
+			}
+			for _, o := range silent[r] {
+				if a, ok := silentV[o]; !ok || a == "unsat" || knownWhole(r.Fn, o.Name) {
+					continue
+				}
+				drop(o)
+				if k := shortCallee(r.Fn) + " :: " + o.Name; !noted[k] {
+					noted[k] = true
+					unclaimedFailed = append(unclaimedFailed, k)
 				}
 			}
 			if minIdx < 0 {
@@ -357,6 +356,12 @@ func cmdCheck(args []string) int {
 				if !o.Cover && !o.Known && r.Verdicts[i].Answer == "unsat" && o.n > minIdx {
 					sr.Obls = append(sr.Obls, o)
 					idx = append(idx, i)
+				}
+			}
+			for k, o := range silent[r] {
+				if silentV[o] == "unsat" && o.n > minIdx {
+					sr.Obls = append(sr.Obls, o)
+					idx = append(idx, -1-k)
 				}
 			}
 			if len(idx) > 0 {
@@ -375,8 +380,13 @@ func cmdCheck(args []string) int {
 			for _, r := range results {
 				if r.Query == sr.Query && r.Fn == sr.Fn {
 					for j, i := range back[k] {
-						if sr.Verdicts[j].Answer != "unsat" {
+						if sr.Verdicts[j].Answer == "unsat" {
+							continue
+						}
+						if i >= 0 {
 							r.Verdicts[i] = sr.Verdicts[j]
+						} else {
+							silentV[silent[r][-1-i]] = sr.Verdicts[j].Answer
 						}
 					}
 				}
@@ -399,6 +409,8 @@ func cmdCheck(args []string) int {
 				n = "inventory/effects/" + a.Name
 			case "writes":
 				n = "inventory/writes/" + a.Name
+			case "maprange":
+				n = "inventory/maprange/" + a.Name
 			case "datakeys":
 				n = "inventory/datakeys"
 			}
@@ -506,6 +518,8 @@ func cmdCheck(args []string) int {
 			r = e.effectInventory(a.Name, a.Roots, a.Forbidden, a.AllowedIn)
 		case "writes":
 			r = e.writeInventory(a.Name, a.Roots, a.ImmutablePkgs, a.Scratch)
+		case "maprange":
+			r = e.mapRangeInventory(a.Name, a.Roots, a.AllowedIn)
 		case "impls":
 			r = e.ifaceImplInventory(a.Iface)
 		case "datakeys":
